@@ -164,6 +164,9 @@ CLIENT_ADDR = ("::ffff:192.0.2.10", 40000, 0, 0)
 def addr_of(src):
     if src == 0:
         return CLIENT_ADDR
+    if src == 3:
+        # another program on the CLIENT'S HOST: same address, another port (the transfer ID is address AND port)
+        return (CLIENT_ADDR[0], 40000 + src, 0, 0)
     return ("::ffff:192.0.2.%d" % (10 + src), 40000 + src, 0, 0)
 
 
